@@ -67,7 +67,7 @@ CHECKS["C08"] = dict(
 CHECKS["C12"] = dict(
     level="exploration",
     text="Seeded histories of sub-field writes (note controller/effect/XX/YY; the six visualization parts; MIDI-in always/channel; project sync flags), whole-word writes, primary note fields over their domains, whole-pattern byte images of valid cells, and save -> restart -> load; after every write every sub-field of the touched word, Note.raw_data (documented 8-byte packing) and Pattern.raw_data (row-major join) are compared with an integer field model; a re-save after restart must be byte-identical.",
-    note="Sampled history exploration, NOT the complete enumeration of (old word, sub-field, new value) triples the statement mentions: a setter that fails only for one specific old value may be missed. Field layout taken from docs/sunvox-file-format.rst.",
+    note="Histories are sampled. The note sub-field triples are enumerated completely only in the thorough tier (quick: every old value of the written byte with three sibling bytes); visualization / MIDI-in / sync words are enumerated over their defined members. Field layout taken from docs/sunvox-file-format.rst.",
     technique="deterministic simulation: seeded overwrite histories of packed words against a field model, across restart",
     ref="DESIGN.md §5/C12",
 )
@@ -93,6 +93,15 @@ CHECKS["C17"] = dict(
     technique="deterministic simulation: seeded interleaving of several actors' operations and suspended writers, non-interference oracle, pristine forked process per history",
     ref="DESIGN.md §5/C17",
 )
+
+CHECKS["C18"]["text"] = "Every load exit path reachable by one fault at a seam is enumerated for the fixtures: a fault (EIO, cancellation as BaseException, MemoryError, short read) at each read call index and (ESPIPE, cancellation) at each seek/tell index of the top-level and of every nested stream (embedded project, sampler effect), truncation at every chunk boundary and dense byte offsets, open/close faults, a non-seekable stream, both initial flag values, file-object / str / Path access, loads that happen inside Container.clone() and Module.clone(), and the same sweeps under other configurations (strict-on-read knob, DEBUG log level, the load wrapped in the library's public override context manager entered from the opposite setting); seeded multi-load histories (each in a pristine forked process, up to two faults per load) and stored-byte flips on top. The oracle is exactly the statement: flag identical before/after, every file the library opened (pathlib or builtin open) has been closed, later API use is as strict as before."
+CHECKS["C19"]["text"] = "The user callable is a simulator-owned object with a per-cell fault plan. For every swept shape, both setters, attached and free patterns: a failure at EVERY cell index / yield index for an Exception, a BaseException and in-place mutation of the working copy followed by a raise; 19 exception types (incl. StopIteration, GeneratorExit, SystemExit, MemoryError) at the first, middle and last cell; before-first / after-last / subset / duplicate-yield generator plans; five note-construction styles incl. handing back Note objects that already live in the pattern (rotation) followed by failing and partial edits; seeded histories of 1-6 successive edits (each in a pristine forked process) on top. Oracle: a harness-maintained cell model (contents, raw_data, dimensions; what the callable observed mid-edit) and ownership of every note (note.pattern identity, note.project, note.mod resolution)."
+CHECKS["C05"]["text"] = "Every fixture, seeded library-generated projects (incl. configured MetaModules, twins, hubs, payloads of tens of KiB), live API-built objects (projects, one Synth per module type, nested MetaModule graphs incl. the embedded project saved on its own), legacy / older-revision Sampler records, and seeded perturbations of value-bearing payloads (CVAL to arbitrary int32, option/other CHDT bytes, SLNK/SLnK entries, PDTA bytes, CMID and ~30 header fields, also inside embedded containers) go through n>=1 load/save cycles compared byte for byte; every save is bracketed by snapshot equality (purity) and a second save; a write fault (EIO, ENOSPC, cancellation, short write) is injected at every write-call index of unperturbed files and nested built graphs (sweep) and at seeded indices elsewhere; saves are also started and abandoned at every chunk position; after either the object must be unchanged and the next clean save identical; two objects' suspended chunks() writers are advanced alternately under seeded and strictly alternating schedules and must produce the bytes of an uninterrupted save; an out-of-range value of a ranged controller must never make a loadable file unloadable."
+CHECKS["C17"]["text"] = "2-4 actors each obtain an object independently (any of the 43 module types, project, pattern, synth; clone of another actor's object; load of another actor's saved bytes, of a shared fixture or of a big generated file; a loaded project containing twin modules with identical payload); a seeded scheduler interleaves mutations through every catalogue slot (incl. in-place element writes and whole-list assignment of curves, waveforms, envelopes, mappings, note maps, labels, embedded projects), saves, single steps of suspended chunks() writers, loads that FAIL under an injected I/O fault, drops and fresh constructions. After every step the snapshot digest and saved-bytes digest of every other actor's object must be unchanged, a module-local edit must leave every sibling module of the same project unchanged, fresh constructions and later clean loads must equal the pristine references taken at world start (every history runs in a pristine forked process), and a suspended writer must produce the bytes of an uninterrupted save. Sweeps: every module type against itself (new / clone / load) through 90 slot mutations; a failing load at a spread of read indices of every fixture followed by clean loads."
+CHECKS["C07"]["text"] = "Seeded histories of connect/disconnect requests over two projects in every operand form the API accepts (method call, >>, <<, ModuleList chains, ~, lists, repeated members, self pairs, output, operands owned by the other project), incl. hub histories (one source toggling links to up to 24 destinations 20-90 times) and projects that are saved, get unlinked module sections blanked, are reloaded and keep attaching into the gaps; plus all sequences of up to 2 (quick) / 3 (thorough) single-pair requests over a 3-module project. After every request the edge multiset derived from the link tables is compared with an edge-set reference model and the four tables are checked entry by entry for mutual consistency; cross-project requests must be refused and leave both projects' tables untouched."
+CHECKS["C08"]["text"] = "C07's histories on one project (plus a foreign party whose operands must be refused, so that list requests are partially applied) with intermediate saves and 1-4 save -> restart -> load boundaries (the actor keeps linking on the loaded project), incl. hub histories with up to 700 toggles (out-slot numbers beyond 16 and 255): the four link tables of every module (trailing freed slots stripped), the edge set, and mutual consistency of the loaded tables are compared at each restart; in slot-less mode every SLnK chunk is removed from the saved bytes before loading (graph, in-link order and consistency demanded, not slot numbers)."
+CHECKS["C12"]["text"] = "Seeded histories of sub-field writes (note controller/effect/XX/YY; the six visualization parts; MIDI-in always/channel; project sync flags), whole-word writes, primary note fields over their domains, whole-pattern byte images of valid cells (recurring within a run), grid-structure edits through the public list (replace a cell by a new Note, swap or reverse lines), writes through Note references taken once and held, worlds started from fixture projects (incl. an old-version file) and save -> restart -> load; after every write every sub-field of the touched word, Note.raw_data (documented 8-byte packing) and Pattern.raw_data (row-major join, checked before anything touches pattern.data again) are compared with an integer field model. Sweeps: every (old byte x 3 sibling bytes x new byte) triple of the four note sub-fields in the quick tier and every (16-bit old word, new byte) triple in the thorough tier; all small packed words."
+CHECKS["C14"]["text"] = "Seeded histories over 2-3 projects (fresh, or loaded from fixtures incl. one with a gap and one stamped with an old version) and a pool of free modules/patterns: attach_module, new_module, += (modules, patterns, lists incl. repeated members), attaching twice, attaching an object owned by another project (must raise the ownership error and leave the ownership snapshot of every project identical), attach_pattern (pattern/clone/None), note.mod get/set over the whole 16-bit module-number width (modules, gaps, zero, beyond the end), a project being adopted as the embedded project of a MetaModule with mappings, projects grown past 256 positions, and save -> restart -> load including files whose unlinked module sections were blanked to SEND; after every op index==position, parent, output-at-0 and the slot model (lowest empty position, else append; nothing else moves) are checked on every project."
 
 PENDING = {}
 
